@@ -383,6 +383,16 @@ def main():
         jobs = []
         for k in range(n_datasets):
             ds = make_dataset(rng, tier)
+            if k in (0, 1):
+                # an individual whose id is 0, not first / first, with negative ids around it: every order of the individuals
+                # (a contiguity test that treats the value 0 specially must not refuse or accept by the position of that block)
+                forced = [3, 0, 5] if k == 0 else [0, -1, 2]
+                ds['pool'] = 'zero'
+                ds['ids'] = forced
+                keep = [rows for _, rows in ds['blocks']][:3]
+                while len(keep) < 3:
+                    keep.append([{'x': 0.7, 'y': -0.3, 'c': 1}, {'x': 1.3, 'y': 0.4, 'c': 2}])
+                ds['blocks'] = [[i, rows] for i, rows in zip(forced, keep)]
             if k < len(FORMULAS) * 2:       # make sure every formula kind and a multi-individual table occur
                 ds['kind'] = FORMULAS[k % len(FORMULAS)]
             payload = {'ds': ds, 'orders': orders(ds, rng, tier), 'bad_orders': bad_orders(ds, rng),
